@@ -126,7 +126,17 @@ class SimSocket:
             raise self._ebadf()
 
     def getsockname(self):
+        if self.closed:
+            raise self._ebadf()
         return ("127.0.0.1", self.port)
+
+    def getpeername(self):
+        if self.closed:
+            raise self._ebadf()
+        if self.kind != "conn" or self.peer is None or self.rx_rst:
+            # (a connection the peer has already reset is no longer connected)
+            raise OSError(errno.ENOTCONN, "Transport endpoint is not connected")
+        return ("127.0.0.1", self.peer.port)
 
     def settimeout(self, t):
         pass
